@@ -21,7 +21,7 @@ from verif.tlc import MachineryError, json_lines, run_tlc
 HANDLES = ['ch', 'm1', 'm2', 'dB']
 CTX = []
 ABS = {'a': 'm1', 'b': 'm2', 'd': 'dB'}
-MC_ACTIONS = ['CommitState', 'CommitDescrUpdate', 'CommitDelete', 'CommitCreate', 'Restart', 'Deliver', 'BeginLoad',
+MC_ACTIONS = ['CommitState', 'CommitDescrUpdate', 'CommitDelete', 'CommitCreate', 'Restart', 'Deliver', 'DeliverRace', 'BeginLoad',
               'Snapshot', 'ArriveDuringReplay', 'EndLoad']
 
 
@@ -80,6 +80,32 @@ class HandoverLock:
         return False
 
 
+class RaceLock:
+    """Wraps the consumer MDIB's re-entrant lock.  When armed, the next thread that comes to acquire it first lets
+    `armed()` run to completion - another receiver thread that got the lock first - and then acquires it."""
+
+    def __init__(self, real):
+        self._real = real
+        self.armed = None
+
+    def acquire(self, *a, **kw):
+        if self.armed is not None:
+            fn, self.armed = self.armed, None
+            fn()
+        return self._real.acquire(*a, **kw)
+
+    def release(self):
+        return self._real.release()
+
+    def __enter__(self):
+        self.acquire()
+        return self
+
+    def __exit__(self, *a):
+        self.release()
+        return False
+
+
 class FaultSession:
     def __init__(self, **pair_kw):
         install_clock()
@@ -99,6 +125,8 @@ class FaultSession:
         self.phist = {}           # (seq, mver) -> provider projection
         self.load_script = None
         self.trace = []
+        self.race_lock = RaceLock(self.cm.mdib_lock)
+        self.cm.mdib_lock = self.race_lock
 
     # ------------------------------------------------------------ network hook
     def _on_post(self, wire):
@@ -264,28 +292,56 @@ class FaultSession:
                 i += 1
                 continue
             if act == 'Deliver':
-                gi = rec['i'] - 1
-                if gi >= len(self.groups):
-                    i += 1
-                    continue
-                rmver, rseq, rinst = self._group_triple(gi)
-                cpre = self.trace[-1]['cpost']
-                same_epoch = (rseq == cpre['seq'] and rinst == cpre['inst'])
-                dup = gi in self.delivered_since_load
-                self.clean = self.clean and gi == self.next_expected
-                self.next_expected = gi + 1 if gi >= self.next_expected else self.next_expected
-                try:
-                    res = self._deliver(gi)
-                except Exception as ex:  # noqa: BLE001
-                    res = 'exc:' + type(ex).__name__
-                self.delivered_since_load.append(gi)
-                clean_now = self.clean and self.next_expected == len(self.groups) and self._phase() == 'initialized'
-                self.trace.append(self._rec(rec, res, rmver=rmver, same_epoch=same_epoch, dup=dup, clean=clean_now))
+                self._do_deliver(rec)
+            elif act == 'DeliverRace':
+                # report i has passed the pre-check and waits for the MDIB lock while report j is received and applied
+                self._do_deliver({'act': 'Deliver', 'i': rec['i'], 'sit': rec.get('sit', [])},
+                                 inner={'act': 'Deliver', 'i': rec['j']})
             else:
                 self._provider_action(rec)
                 self.trace.append(self._rec(rec, 'ok'))
             i += 1
         return self.trace
+
+    def _do_deliver(self, rec, inner=None):
+        gi = rec['i'] - 1
+        if gi >= len(self.groups):
+            if inner is not None:
+                self._do_deliver(inner)
+            return
+        pre = {}
+
+        def capture():
+            rmver, rseq, rinst = self._group_triple(gi)
+            cpre = self.trace[-1]['cpost']
+            pre.update(rmver=rmver, same_epoch=(rseq == cpre['seq'] and rinst == cpre['inst']),
+                       dup=gi in self.delivered_since_load)
+            self.clean = self.clean and gi == self.next_expected
+            self.next_expected = gi + 1 if gi >= self.next_expected else self.next_expected
+
+        def other_thread_first():
+            self._do_deliver(inner)
+            capture()
+            self.races = getattr(self, 'races', 0) + 1
+        if inner is None:
+            capture()
+        else:
+            self.race_lock.armed = other_thread_first
+        try:
+            res = self._deliver(gi)
+        except Exception as ex:  # noqa: BLE001
+            res = 'exc:' + type(ex).__name__
+        late_inner = False
+        if inner is not None and self.race_lock.armed is not None:
+            # report i never came to the lock (rejected by the pre-check): the other report simply arrives after it
+            self.race_lock.armed = None
+            capture()
+            late_inner = True
+        self.delivered_since_load.append(gi)
+        clean_now = self.clean and self.next_expected == len(self.groups) and self._phase() == 'initialized'
+        self.trace.append(self._rec(rec, res, clean=clean_now, **pre))
+        if late_inner:
+            self._do_deliver(inner)
 
     def _load(self, pre, post, late=()):
         """reload_all with scripted traffic while GetMdib is in flight and while the buffered reports are replayed."""
@@ -399,7 +455,7 @@ def check(run, replay_path=None):
     fault_family(run)
 
 
-def fault_family(run, family=None, num=None, prefixes=('R:', 'L:'), with_model=True, seed_offset=0):
+def fault_family(run, family=None, num=None, prefixes=('R:', 'L:', 'Q:'), with_model=True, seed_offset=0):
     """The fault-delivery sessions; `family`: only these clauses are reported (C11 reuses the sessions for lookups_agree
     with a cover of the deliveries whose description report has a part that is rejected after another was applied)."""
     if with_model:
@@ -431,12 +487,14 @@ def fault_family(run, family=None, num=None, prefixes=('R:', 'L:'), with_model=T
     variants = [dict(), dict(async_mgr=True)]
     traces = []
     handovers = 0
+    races = 0
     for i, beh in enumerate(behs):
         ses = FaultSession(**variants[i % len(variants)])
         try:
             traces.append(ses.run(beh))
         finally:
             handovers += getattr(ses, 'handovers', 0)
+            races += getattr(ses, 'races', 0)
             ses.close()
     rejects = tracecheck.validate(run, 'MirrorFaultTrace', 'MirrorFaultTrace.cfg', [strip(t) for t in traces],
                                   chunk=500)
@@ -445,6 +503,7 @@ def fault_family(run, family=None, num=None, prefixes=('R:', 'L:'), with_model=T
     run.count('stale_deliveries', sum(1 for t in traces for r in t if r['act'] == 'Deliver'
                                       and r['same_epoch'] and r['rmver'] < t[t.index(r) - 1]['cpost']['mver']))
     run.count('loads', sum(1 for t in traces for r in t if r['act'] == 'Load'))
+    run.count('deliveries_overtaken_at_the_mdib_lock', races)
     run.count('loads_with_arrival_during_replay', sum(1 for t in traces for r in t if r['act'] == 'Load'
                                                       and r.get('late_in_replay')))
     run.count('load_handovers_of_the_buffer_lock_to_a_waiting_receiver', handovers)
